@@ -279,4 +279,189 @@ theorem mutex_init (sh : Shared) (clock : Nat) (progs : List (List OpSpec)) (h :
   have := nc a ta ha
   simp [this] at hca
 
+/-! ## progress measure -/
+
+/-- steps an operation needs after `currentBucketOfTime` has returned (upper bound) -/
+def cont (n : Nat) : OpSpec → Nat
+  | .add _ _ => 3 | .conc _ => 2 | .count _ => 3 * n + 4 | .viewsum _ => 3 * n + 4
+
+/-- upper bound on the own steps an operation at `pc` still needs, provided it never fails a `TryLock` -/
+def pcMeas (n : Nat) (op : OpSpec) : Pc → Nat
+  | .spin => cont n op + 12 | .curLoad => cont n op + 11 | .tryLock => cont n op + 10
+  | .resetStart => cont n op + 9 | .resetCnt k => cont n op + 4 + (4 - k)
+  | .resetMinRt => cont n op + 3 | .resetMaxConc => cont n op + 2 | .unlock => cont n op + 1
+  | .mbAdd => 3 | .minrtLoad => 2 | .minrtStore => 1 | .maxconcLoad => 2 | .maxconcStore => 1
+  | .valGet j col => 3 * (n - j) + col.length + 4 | .depLoad j col => 3 * (n - j) + col.length + 3
+  | .mbGet rem _ => rem.length + 1
+
+def nxPcMeas (n : Nat) (op : OpSpec) : Next → Nat
+  | .pc p => pcMeas n op p
+  | .fin _ => 0
+
+/-- bound for a whole operation (including the step that starts it) -/
+def opMax (n : Nat) (op : OpSpec) : Nat := cont n op + 12
+
+def Th.meas (n : Nat) (t : Th) : Nat :=
+  (match t.cur with | some f => pcMeas n f.op f.pc | none => 0) + (t.prog.map (opMax n)).sum
+
+theorem apply_n (sh : Shared) (a : Act) : (sh.apply a).n = sh.n := by cases a <;> rfl
+
+theorem firstVal_meas (sh : Shared) (op : OpSpec) : nxPcMeas sh.n op (firstVal sh) ≤ 3 * sh.n + 4 := by
+  unfold firstVal; split_ifs <;> simp [nxPcMeas, pcMeas]
+
+theorem afterCur_meas (sh : Shared) (op : OpSpec) (ok : Bool) : nxPcMeas sh.n op (afterCur sh op ok) ≤ cont sh.n op := by
+  cases op <;> simp only [afterCur, cont]
+  case add => split_ifs <;> simp [nxPcMeas, pcMeas]
+  case conc => split_ifs <;> simp [nxPcMeas, pcMeas]
+  case count => exact firstVal_meas sh _
+  case viewsum => exact firstVal_meas sh _
+
+theorem afterScan_meas (n : Nat) (op : OpSpec) (col : List Nat) : nxPcMeas n op (afterScan col) ≤ col.length + 1 := by
+  cases col <;> simp [afterScan, nxPcMeas, pcMeas]
+
+/-- a step inside an operation strictly decreases the measure, unless it is a failed `TryLock` -/
+theorem decide_meas (sh : Shared) (op : OpSpec) (now : Nat) (pc : Pc) (hl : pc = .tryLock → sh.lock = false) :
+    nxPcMeas sh.n op (decideStep sh op now pc).2 < pcMeas sh.n op pc := by
+  cases pc <;> simp only [decideStep]
+  case curLoad =>
+    split_ifs
+    · have := afterCur_meas sh op true; simp only [pcMeas]; omega
+    · simp [nxPcMeas, pcMeas]
+    · have := afterCur_meas sh op true; simp only [pcMeas]; omega
+    · have := afterCur_meas sh op false; simp only [pcMeas]; omega
+  case tryLock => simp [hl rfl, nxPcMeas, pcMeas]
+  case spin => simp [nxPcMeas, pcMeas]
+  case resetStart => simp [nxPcMeas, pcMeas]
+  case resetCnt k =>
+    split_ifs with hk
+    · simp [nxPcMeas, pcMeas]; simp [nEv] at hk; omega
+    · simp [nxPcMeas, pcMeas]; omega
+  case resetMinRt => simp [nxPcMeas, pcMeas]
+  case resetMaxConc => simp [nxPcMeas, pcMeas]
+  case unlock => have := afterCur_meas sh op true; simp only [pcMeas]; omega
+  case mbAdd => cases op <;> simp only [] <;> (try split_ifs) <;> simp [nxPcMeas, pcMeas]
+  case minrtLoad => cases op <;> simp only [] <;> (try split_ifs) <;> simp [nxPcMeas, pcMeas]
+  case minrtStore => cases op <;> simp [nxPcMeas, pcMeas]
+  case maxconcLoad => cases op <;> simp only [] <;> (try split_ifs) <;> simp [nxPcMeas, pcMeas]
+  case maxconcStore => cases op <;> simp [nxPcMeas, pcMeas]
+  case valGet j col => simp [nxPcMeas, pcMeas]
+  case depLoad j col =>
+    have key : ∀ col' : List Nat, col'.length ≤ col.length + 1 →
+        nxPcMeas sh.n op (if j + 1 < sh.n then .pc (.valGet (j + 1) col') else afterScan col') < pcMeas sh.n op (.depLoad j col) := by
+      intro col' hc
+      by_cases hn : j + 1 < sh.n
+      · rw [if_pos hn]; simp only [nxPcMeas, pcMeas]; omega
+      · rw [if_neg hn]; have := afterScan_meas sh.n op col'; simp only [pcMeas]; omega
+    apply key
+    split_ifs <;> simp
+  case mbGet rem acc =>
+    cases rem with
+    | nil => simp [nxPcMeas, pcMeas]
+    | cons j r => cases r <;> simp [nxPcMeas, pcMeas]
+
+theorem firstPc_meas (sh : Shared) (op : OpSpec) : nxPcMeas sh.n op (firstPc sh op) < opMax sh.n op := by
+  cases op <;> simp only [firstPc, opMax, cont]
+  case viewsum => have := firstVal_meas sh (.viewsum ‹_›); omega
+  all_goals simp [nxPcMeas, pcMeas, cont]
+
+theorem opMax_pos (n : Nat) (op : OpSpec) : 0 < opMax n op := by unfold opMax; omega
+
+theorem startNext_meas (sh : Shared) (clock : Nat) (prog : List OpSpec) (res : List Res) :
+    (startNext sh clock prog res).meas sh.n ≤ (prog.map (opMax sh.n)).sum
+      ∧ (prog ≠ [] → (startNext sh clock prog res).meas sh.n < (prog.map (opMax sh.n)).sum) := by
+  induction prog generalizing res with
+  | nil => simp [startNext, Th.meas]
+  | cons op rest ih =>
+    simp only [startNext, List.map_cons, List.sum_cons]
+    have hp := opMax_pos sh.n op
+    split_ifs with hc
+    · have := (ih (res ++ [mkRes sh op 0 (zeroRes op)])).1
+      exact ⟨by omega, fun _ => by omega⟩
+    · have hf := firstPc_meas sh op
+      cases hfp : firstPc sh op with
+      | pc p =>
+        rw [hfp] at hf
+        simp only [nxPcMeas] at hf
+        simp only [Th.meas]
+        exact ⟨by omega, fun _ => by omega⟩
+      | fin r =>
+        have := (ih (res ++ [mkRes sh op clock r])).1
+        simp only []
+        exact ⟨by omega, fun _ => by omega⟩
+
+theorem pcMeas_pos (n : Nat) (op : OpSpec) (pc : Pc) : 0 < pcMeas n op pc := by
+  cases pc <;> simp [pcMeas]
+
+/-- **progress**: a granted step strictly decreases the thread's measure unless it is a failed `TryLock` -/
+theorem stepTh_meas (sh : Shared) (clock : Nat) (t : Th) (hnf : t.finished = false)
+    (hl : ∀ f, t.cur = some f → f.pc = .tryLock → sh.lock = false) :
+    (stepTh sh clock t).2.meas sh.n < t.meas sh.n := by
+  cases hc : t.cur with
+  | none =>
+    rw [stepTh_none sh clock t hc]
+    have hp : t.prog ≠ [] := by
+      intro h; simp [Th.finished, hc, h] at hnf
+    have := (startNext_meas sh clock t.prog t.res).2 hp
+    simpa [Th.meas, hc] using this
+  | some f =>
+    rw [stepTh_some sh clock t f hc]
+    have hd := decide_meas sh f.op f.now f.pc (hl f hc)
+    simp only [Th.meas, hc]
+    cases hn : (decideStep sh f.op f.now f.pc).2 with
+    | pc p =>
+      rw [hn] at hd
+      simp only [adv, nxPcMeas] at hd ⊢
+      omega
+    | fin r =>
+      simp only [adv]
+      have h1 := (startNext_meas (sh.apply (decideStep sh f.op f.now f.pc).1) clock t.prog
+        (t.res ++ [mkRes (sh.apply (decideStep sh f.op f.now f.pc).1) f.op f.now r])).1
+      rw [apply_n] at h1
+      have h2 := pcMeas_pos sh.n f.op f.pc
+      simp only [Th.meas] at h1
+      omega
+
+theorem meas_zero_finished (n : Nat) (t : Th) (h : t.meas n = 0) : t.finished = true := by
+  unfold Th.meas at h
+  cases hc : t.cur with
+  | some f => rw [hc] at h; have := pcMeas_pos n f.op f.pc; simp only [] at h; omega
+  | none =>
+    cases hp : t.prog with
+    | nil => simp [Th.finished, hc, hp]
+    | cons op rest => rw [hp] at h; have := opMax_pos n op; simp at h; omega
+
+theorem stepTh_finished (sh : Shared) (clock : Nat) (t : Th) (h : t.finished = true) :
+    (stepTh sh clock t) = (sh, t) := by
+  obtain ⟨prog, cur, res⟩ := t
+  simp [Th.finished] at h
+  obtain ⟨h1, h2⟩ := h
+  subst h1; subst h2
+  simp [stepTh, startNext]
+
+theorem critMeas_pos (pc : Pc) (h : pc.inCrit = true) : 0 < critMeas pc := by
+  cases pc <;> simp [Pc.inCrit] at h <;> simp [critMeas]
+
+theorem critMeas_le (pc : Pc) : critMeas pc ≤ 9 := by
+  cases pc <;> simp [critMeas]; omega
+
+/-- number of steps granted to thread `i` by a schedule -/
+def stepsOf (i : Nat) : List Entry → Nat
+  | [] => 0
+  | .step j :: r => (if j = i then 1 else 0) + stepsOf i r
+  | .tick _ :: r => stepsOf i r
+
+theorem exec_other (c : Cfg) (i : Nat) (e : Entry) (h : e ≠ .step i) : (c.exec e).th[i]? = c.th[i]? := by
+  cases e with
+  | tick d => rfl
+  | step j =>
+    simp only [Cfg.exec]
+    cases hj : c.th[j]? with
+    | none => rfl
+    | some u =>
+      simp only []
+      rw [set_get c.th j u _ hj]
+      have : j ≠ i := fun hji => h (by rw [hji])
+      simp [this]
+
+
 end Sentinel.LAR
